@@ -1755,8 +1755,20 @@ impl Server {
         
         let results = self.pubsub.unsubscribe(conn_id, channels)?;
         
+        // Nothing to unsubscribe from: the command is still acknowledged once, with a nil name
+        // and the number of subscriptions the connection keeps
+        let remaining = self.pubsub.get_subscription_info(conn_id)
+            .map_or(0, |info| info.channels.len() + info.patterns.len());
+        
         // Send each unsubscription confirmation atomically
         self.connections.with_connection(conn_id, |conn| -> Result<()> {
+            if results.is_empty() {
+                conn.send_frame(&RespFrame::Array(Some(vec![
+                    RespFrame::from_string("unsubscribe"),
+                    RespFrame::null_bulk(),
+                    RespFrame::Integer(remaining as i64),
+                ])))?;
+            }
             for result in results {
                 match result.subscription {
                     crate::pubsub::Subscription::Channel(ch) => {
@@ -1825,8 +1837,20 @@ impl Server {
         
         let results = self.pubsub.punsubscribe(conn_id, patterns)?;
         
+        // Nothing to unsubscribe from: the command is still acknowledged once, with a nil name
+        // and the number of subscriptions the connection keeps
+        let remaining = self.pubsub.get_subscription_info(conn_id)
+            .map_or(0, |info| info.channels.len() + info.patterns.len());
+        
         // Send each unsubscription confirmation atomically
         self.connections.with_connection(conn_id, |conn| -> Result<()> {
+            if results.is_empty() {
+                conn.send_frame(&RespFrame::Array(Some(vec![
+                    RespFrame::from_string("punsubscribe"),
+                    RespFrame::null_bulk(),
+                    RespFrame::Integer(remaining as i64),
+                ])))?;
+            }
             for result in results {
                 match result.subscription {
                     crate::pubsub::Subscription::Pattern(pat) => {
